@@ -268,7 +268,7 @@ def run_random(loop, rng, n_ops, names=3):
         elif r < 0.57:
             do(f"disp:{n}:{rng.randrange(1, 8)}{'!' if rng.random() < 0.4 else ''}")
         elif r < 0.67:
-            to = rng.choice(["-", "1", "3", "3", "5", "9"])
+            to = rng.choice(["-", "0", "0", "1", "3", "3", "5", "9"])
             do(f"get:{n}:{to}{'!' if rng.random() < 0.4 else ''}")
         elif r < 0.9 and im.pending:
             do(f"rel:{rng.choice(sorted(im.pending))}")
